@@ -47,7 +47,12 @@ func (t Threshold) IsValid([]byte) error {
 }
 
 func (t Threshold) Threshold(quorum uint) uint {
-	return uint(math.Ceil(float64(quorum) * (t / MaxThreshold).Float64()))
+	// NOTE threshold has one decimal place(see String()); the ceiling of
+	// quorum*t/100 is calculated by integer to avoid the floating point error,
+	// e.g. 25 * 0.56 = 14.000000000000002 -> 15
+	t10 := uint64(math.Round(t.Float64() * 10))
+
+	return uint((uint64(quorum)*t10 + 999) / 1000)
 }
 
 func (t Threshold) VoteResult(quorum uint, set []string) (result VoteResult, key string) {
